@@ -21,7 +21,7 @@ CHECKS.update({
                 text='All 10 spherical/cylindrical operators (22 components): traced output = local-frame component of the Cartesian operator applied to an arbitrary Cartesian field symbol composed with the coordinate map, for r != 0, sin(theta) != 0 (rho != 0). Conversion helpers (traced, tied to reference functions): Cartesian->curvilinear->Cartesian is the identity everywhere, the converse on the principal ranges, documented ranges of r, theta, phi (hand-written Lean proofs over Complex.arg).',
                 ),
     'C10': dict(engine='calc', technique=T, design='§7 C10',
-                text='BundleIVP (value and derivative mode) and BundleDirichletBVP traced per lookup configuration over 4 extra columns (quick: fixed corner cases + seeded sample; thorough: all 355 configuration/mode pairs): row-wise value / HasDerivAt at t0_row (and t1_row) equals the routed parameter, for all networks and all column values (unused columns universally quantified).'),
+                text='BundleIVP (value and derivative mode) and BundleDirichletBVP traced per lookup configuration over 4 extra columns (quick: fixed corner cases + seeded sample; thorough: all 675 configuration/mode pairs, names may share a column): row-wise value / HasDerivAt at t0_row (and t1_row) equals the routed parameter, for all networks and all column values (unused columns universally quantified).'),
     'C11': dict(engine='calc', technique=T + '; hand-written Lean proof of the limit clause over a certificate-checked reference form', design='§7 C11',
                 text='DirichletBVPSpherical two-sided/one-sided, InfDirichletBVPSpherical and the three coefficient-space variants (per column, widths 1,3 quick / 1,2,9,25 thorough): boundary identities for all angles and both orientations; Tendsto to g as r -> infinity for every k > 0 and bounded network output (static analytic proof tied to the traced code by inf_eq_ref).'),
     'C12': dict(engine='calc', technique=T + '; rejection paths observed on the real code', design='§7 C12',
